@@ -245,6 +245,79 @@ func c12Run(c *fw.Ctx, idx int, sc c12Scenario) {
 	c.Case(fmt.Sprintf("%+v", sc), true)
 }
 
+// c12NewerLeaves: A connects, B takes the identifier over and then leaves (DISCONNECT or
+// connection loss) BEFORE A's next keep-alive exchange. A was displaced: it must not be
+// served again just because its successor is gone.
+func c12NewerLeaves(c *fw.Ctx, idx int, nNodes int, sameNode bool, how string) {
+	fw.LogCase("C12 newer-leaves %d nodes=%d same=%v %s", idx, nNodes, sameNode, how)
+	cl := kit.NewCluster(kit.WorkDir("c12n"))
+	defer cl.Close()
+	auth := kit.PredictableAuth()
+	nodes := []*kit.Node{}
+	for i := 1; i <= nNodes; i++ {
+		n, err := cl.AddNode(kit.NodeOpts{ID: uint64(i), Auth: auth})
+		if err != nil {
+			c.Inconclusive("cannot start node: " + err.Error())
+			return
+		}
+		nodes = append(nodes, n)
+	}
+	clientID := fmt.Sprintf("leave-%d", idx)
+	desc := fmt.Sprintf("A and B connect as %q (%d node(s), same node: %v), B ends with %s, then A sends PINGREQ", clientID, nNodes, sameNode, how)
+	a, err := nodes[0].MustConnect(kit.ConnectOpts{ClientID: clientID, KeepAlive: 600, Clean: true})
+	if err != nil {
+		c.Inconclusive("connect: " + err.Error())
+		return
+	}
+	defer a.Close()
+	cl.Quiesce()
+	bn := nodes[0]
+	if !sameNode {
+		bn = nodes[nNodes-1]
+	}
+	b, err := bn.MustConnect(kit.ConnectOpts{ClientID: clientID, KeepAlive: 600, Clean: true})
+	if err != nil {
+		c.Violation("newer-connection-refused", desc+": B was not accepted: "+err.Error(), nil)
+		return
+	}
+	defer b.Close()
+	cl.Quiesce()
+	if how == "DISCONNECT" {
+		b.Send(kit.EncDisconnect())
+	} else {
+		b.Close()
+	}
+	if left := pollGone(10*time.Second, func() []string {
+		if bn.Local.Get(clientID+"#2") != nil {
+			return []string{"B still registered"}
+		}
+		return nil
+	}); len(left) > 0 {
+		c.Inconclusive(desc + ": B's session did not end")
+		return
+	}
+	time.Sleep(10 * time.Millisecond)
+	cl.Quiesce()
+	from := a.NumEvents()
+	a.Send(kit.EncPingReq())
+	closed := a.WaitClosed(10 * time.Second)
+	answered := false
+	for _, e := range a.Events()[from:] {
+		if e.Pkt.Type == kit.PINGRESP {
+			answered = true
+		}
+	}
+	c.Observe("newer_leaves_scenarios", 1)
+	c.Case(fmt.Sprintf("newer-leaves|%d|%v|%s", nNodes, sameNode, how), true)
+	if answered {
+		c.Violation("displaced-session-served-again", desc+": A, displaced by B, got PINGRESP at its next keep-alive exchange", map[string]interface{}{"nodes": nNodes, "same_node": sameNode, "newer_ended_by": how})
+		return
+	}
+	if !closed {
+		c.Violation("displaced-session-not-closed", desc+": A was not disconnected", nil)
+	}
+}
+
 func addOne(a []int) []int {
 	out := make([]int, len(a))
 	for i, v := range a {
@@ -254,7 +327,7 @@ func addOne(a []int) []int {
 }
 
 func runC12(c *fw.Ctx) {
-	c.Rule = "pairs and chains of 3 connections sharing a client identifier on 1-3 nodes (same node / different nodes), gossip delivered by an explicit pump; each displaced session performs one event (PINGREQ, SUBSCRIBE, DISCONNECT, close, nothing) placed before the takeover's gossip, after it, BETWEEN 'old record deleted' and 'new record created' in the accepting node's setup (hook H2, the accepting goroutine is held there), or with its own teardown held between lookup and delete (hook H2) while the gossip is delivered. Oracle: every CONNECT is accepted; after quiescence every node resolves the identifier to the newest session, lists exactly its subscription and none of the displaced ones; the displaced session's next PINGREQ gets no PINGRESP and its connection is closed; a publish to the newest session's filter reaches it and not the others. Quick: the full grid of pairs (placement x event x timing) and seeded chains; thorough: more chains. distinct = scenario parameters; non-trivial = all"
+	c.Rule = "pairs and chains of 3 connections sharing a client identifier on 1-3 nodes (same node / different nodes), gossip delivered by an explicit pump; each displaced session performs one event (PINGREQ, SUBSCRIBE, DISCONNECT, close, nothing) placed before the takeover's gossip, after it, BETWEEN 'old record deleted' and 'new record created' in the accepting node's setup (hook H2, the accepting goroutine is held there), or with its own teardown held between lookup and delete (hook H2) while the gossip is delivered. Oracle: every CONNECT is accepted; after quiescence every node resolves the identifier to the newest session, lists exactly its subscription and none of the displaced ones; the displaced session's next PINGREQ gets no PINGRESP and its connection is closed; a publish to the newest session's filter reaches it and not the others. Also: the newer session leaves (DISCONNECT / connection loss) before the displaced one's keep-alive exchange, which must still end the displaced one. Quick: the full grid of pairs (placement x event x timing) and seeded chains; thorough: more chains. distinct = scenario parameters; non-trivial = all"
 	c.Assume("the accepting node has learned of the earlier session (gossip barrier before each CONNECT), as the property requires")
 	events := []string{"ping", "subscribe", "disconnect", "close", "nothing"}
 	whens := []string{"before-gossip", "after-gossip", "at-setup-point", "at-shutdown-point"}
@@ -304,6 +377,18 @@ func runC12(c *fw.Ctx) {
 		}(i, sc)
 	}
 	wg.Wait()
+	k := 0
+	for _, nn := range []int{1, 2, 3} {
+		for _, same := range []bool{true, false} {
+			if nn == 1 && !same {
+				continue
+			}
+			for _, how := range []string{"DISCONNECT", "connection loss"} {
+				k++
+				c12NewerLeaves(c, k, nn, same, how)
+			}
+		}
+	}
 	c.Sample(map[string]interface{}{"scenario": fmt.Sprintf("%+v", scen[5])})
 	c.Sample(map[string]interface{}{"scenario": fmt.Sprintf("%+v", scen[len(scen)-1])})
 	c.Floor("resolutions_checked", 50)
